@@ -11,6 +11,10 @@ from . import AnalysisError
 from .model import Program, FuncInfo, NotConst
 
 
+class FoldRaises(NotConst):
+    """The folded function reached a raise statement for these arguments (a NotConst for callers that do not care)."""
+
+
 class _Return(Exception):
     def __init__(self, value):
         self.value = value
@@ -81,6 +85,8 @@ def fold_function(prog: Program, fn: FuncInfo, budget: int = 200000, args: Dict[
                 raise _Return(ev(st.value) if st.value is not None else None)
             elif isinstance(st, ast.Pass):
                 continue
+            elif isinstance(st, ast.Raise):
+                raise FoldRaises("raise %s" % (ast.unparse(st.exc)[:60] if st.exc is not None else ""))
             else:
                 raise NotConst("statement kind %s" % type(st).__name__)
 
